@@ -82,6 +82,25 @@ class Obj:
     def __repr__(self):
         return f"<Obj {self.cls.name if self.cls else self.name}>"
 
+    # a NamedTuple instance is also a tuple of its fields (unpacking, indexing, len)
+    def _tuple(self):
+        f = self.attrs.get("__fields__")
+        if f is None:
+            raise TypeError(f"{self!r} is not iterable")
+        return tuple(self.attrs[n] for n in f)
+
+    def __bool__(self):
+        return True
+
+    def __iter__(self):
+        return iter(self._tuple())
+
+    def __len__(self):
+        return len(self._tuple())
+
+    def __getitem__(self, i):
+        return self._tuple()[i]
+
 
 class EnumMember:
     def __init__(self, cls, name, value):
@@ -499,6 +518,10 @@ class Interp:
         cb = env.get("__classbody__")
         if cb is not None and e.id in cb.consts:
             return self.eval(cb.consts[e.id], env)  # a class-level expression naming a sibling class constant
+        if cb is not None and e.id in cb.methods:
+            bm = BoundMethod(None, cb.methods[e.id])  # a class-level table naming a function of the class body: the plain function
+            bm.unbound = not cb.methods[e.id].is_static
+            return bm
         if e.id in ("True", "False", "None"):
             return {"True": True, "False": False, "None": None}[e.id]
         if e.id in BUILTINS:
@@ -528,7 +551,7 @@ class Interp:
                     return BoundMethod(None, m2.functions[nm])
                 if nm in getattr(m2, "dropped_functions", {}):
                     return BoundMethod(None, m2.dropped_functions[nm])
-        if e.id in ("struct", "time", "asyncio", "logging", "re", "math", "threading", "socket"):
+        if e.id in ("struct", "time", "asyncio", "logging", "re", "math", "threading", "socket", "enum", "operator", "contextlib", "dataclasses", "typing", "functools", "itertools", "collections"):
             return ModuleRef(e.id)
         if mod is not None and e.id in mod.imports:
             if mod.imports[e.id][0] >= 1 and e.id.startswith("_"):
@@ -570,9 +593,20 @@ class Interp:
                 return Builtin("noop")
             raise Undecided(f"super().{attr} not found")
         if isinstance(base, ClassRef):
-            if any(b.split(".")[-1] in ("IntEnum", "Enum") for b in base.cls.bases) and attr in base.cls.consts \
-                    and isinstance(base.cls.consts[attr], ast.Constant):
-                return EnumMember(base.cls, attr, base.cls.consts[attr].value)
+            if any(b.split(".")[-1] in ("IntEnum", "Enum") for b in base.cls.bases) and attr in base.cls.consts:
+                ex_ = base.cls.consts[attr]
+                cache = self.__dict__.setdefault("_enum_members", {})
+                if (base.cls.name, attr) in cache:
+                    return cache[(base.cls.name, attr)]
+                m_ = None
+                if isinstance(ex_, ast.Constant):
+                    m_ = EnumMember(base.cls, attr, ex_.value)
+                elif isinstance(ex_, ast.Call) and ast.unparse(ex_.func).split(".")[-1] == "auto" and not ex_.args:
+                    members = [k_ for k_, v_ in base.cls.consts.items() if isinstance(v_, (ast.Constant, ast.Call)) and not k_.startswith("_")]
+                    m_ = EnumMember(base.cls, attr, members.index(attr) + 1)
+                if m_ is not None:
+                    cache[(base.cls.name, attr)] = m_   # one object per member: `is` works
+                    return m_
             for k in self.repo.mro(base.cls):
                 if attr in k.consts:
                     return self._class_value(k, attr)
@@ -606,6 +640,59 @@ class Interp:
                 return PyMethod(base, attr) if callable(v) else v
             raise PyRaise(f"AttributeError: '{type(base).__name__}' object has no attribute '{attr}'", node)
         raise Undecided(f"attribute {attr} of {type(base).__name__}")
+
+    def _record_kind(self, cls):
+        """'namedtuple' / 'dataclass' for classes whose constructor Python synthesises from the annotated fields"""
+        for k in self.repo.mro(cls):
+            if any(b.split(".")[-1] == "NamedTuple" for b in k.bases):
+                return "namedtuple"
+            for d in k.node.decorator_list:
+                t = ast.unparse(d.func if isinstance(d, ast.Call) else d)
+                if t.split(".")[-1] == "dataclass":
+                    return "dataclass"
+        return None
+
+    def _make_record(self, cls, args, kwargs, node=None):
+        kind = self._record_kind(cls)
+        fields = []
+        for k in reversed(self.repo.mro(cls)):
+            for st in k.node.body:
+                if isinstance(st, ast.AnnAssign) and isinstance(st.target, ast.Name) and "ClassVar" not in ast.unparse(st.annotation):
+                    fields = [f for f in fields if f[0] != st.target.id] + [(st.target.id, st.value, k)]
+        if len(args) > len(fields):
+            raise PyRaise(f"TypeError: {cls.short}() takes {len(fields)} positional arguments but {len(args)} were given", node)
+        vals = {}
+        for (nm, _d, _k), v in zip(fields, args):
+            vals[nm] = v
+        for nm, v in kwargs.items():
+            if nm not in [f[0] for f in fields] or nm in vals:
+                raise PyRaise(f"TypeError: {cls.short}() got an unexpected or repeated keyword argument '{nm}'", node)
+            vals[nm] = v
+        for nm, d, k in fields:
+            if nm in vals:
+                continue
+            if d is None:
+                raise PyRaise(f"TypeError: {cls.short}() missing required argument: '{nm}'", node)
+            env = {"__class__": k, "__mod__": k.mod, "__classbody__": k}
+            if isinstance(d, ast.Call) and ast.unparse(d.func).split(".")[-1] == "field":
+                kw = {x.arg: x.value for x in d.keywords}
+                if "default_factory" in kw:
+                    vals[nm] = self.apply(self.eval(kw["default_factory"], env), [], {}, node)
+                elif "default" in kw:
+                    vals[nm] = self.eval(kw["default"], env)
+                else:
+                    raise PyRaise(f"TypeError: {cls.short}() missing required argument: '{nm}'", node)
+            else:
+                vals[nm] = self.eval(d, env)
+        obj = Obj(cls, vals)
+        if kind == "namedtuple":
+            obj.attrs["__fields__"] = [f[0] for f in fields]
+        else:
+            for k in self.repo.mro(cls):
+                if "__post_init__" in k.methods:
+                    self.call(k.methods["__post_init__"], obj, [], {})
+                    break
+        return obj
 
     def _class_value(self, k, attr):
         """value of a class-level attribute; a mutable one (dict / list / set display) exists once per class, as in
@@ -645,6 +732,10 @@ class Interp:
         return self.apply(callee, args, kwargs, e)
 
     def apply(self, callee, args, kwargs, node=None):
+        if isinstance(callee, BoundMethod) and getattr(callee, "unbound", False):
+            if not args:
+                raise PyRaise(f"TypeError: {callee.fi.name}() missing 1 required positional argument: 'self'", node)
+            return self.call(callee.fi, args[0], list(args[1:]), kwargs)
         if isinstance(callee, BoundMethod):
             return self.call(callee.fi, callee.obj, args, kwargs)
         if isinstance(callee, ClassRef) and any(b.split(".")[-1] in ("IntEnum", "Enum") for b in callee.cls.bases):
@@ -657,6 +748,8 @@ class Interp:
                 if isinstance(ex, ast.Constant) and ex.value == v:
                     return EnumMember(callee.cls, nm, v)
             raise PyRaise(f"ValueError: {v} is not a valid {callee.cls.short}", node)
+        if isinstance(callee, ClassRef) and self._record_kind(callee.cls) is not None and not any("__init__" in k.methods for k in self.repo.mro(callee.cls)):
+            return self._make_record(callee.cls, args, kwargs, node)
         if isinstance(callee, ClassRef):
             obj = Obj(callee.cls)
             init = None
@@ -667,6 +760,27 @@ class Interp:
             if init is not None:
                 self.call(init, obj, args, kwargs)
             return obj
+        if isinstance(callee, PyMethod) and callee.attr == "format" and isinstance(callee.base, str) \
+                and any(isinstance(a, (Obj, EnumMember)) for a in list(args) + list(kwargs.values())):
+            import string as _string
+            interp = self
+
+            class _F(_string.Formatter):
+                def get_field(self, field_name, a_, k_):
+                    first, rest = _string._string.formatter_field_name_split(field_name)
+                    obj = self.get_value(first, a_, k_)
+                    for is_attr, i in rest:
+                        obj = interp.getattr(obj, i, node) if is_attr else obj[i]
+                    return obj, first
+
+                def format_field(self, value, spec):
+                    if isinstance(value, (Obj, EnumMember)):
+                        return interp.stringify(value, node) if hasattr(interp, "stringify") else str(value)
+                    return format(value, spec)
+            try:
+                return _F().vformat(callee.base, tuple(args), dict(kwargs))
+            except (IndexError, KeyError) as ex_:
+                raise PyRaise(f"{type(ex_).__name__}: {ex_}", node)
         if isinstance(callee, PyMethod):
             return callee(*args, **kwargs)
         if isinstance(callee, (Native, Closure)):
@@ -756,6 +870,8 @@ class Interp:
         if isinstance(op, ast.Is):
             if l is None or r is None:
                 return l is r
+            if isinstance(l, EnumMember) and isinstance(r, EnumMember):
+                return l.cls is r.cls and l.name == r.name   # enum members are singletons
             return l is r
         if isinstance(op, ast.IsNot):
             return not self.compare(ast.Is(), l, r)
